@@ -45,6 +45,16 @@ CLAIMED = {
         note=("Trusts the quiescence barrier for determinism (every 97th execution is re-run and must give the same canonical state); "
               "dedup soundness is cross-checked without dedup at depth 3 in the thorough tier; classic <enable/> negotiation only."),
         design_ref="§3 C09"),
+    "C10": dict(
+        category="fault_enumeration",
+        technique="exhaustive enumeration of cut points x script variants x resume answers over up to three consecutive connection attempts of the real client",
+        text=("Every combination of script variant (4), resume answer (2), cut point (8) and close kind for the first one or two attempts, "
+              "followed by an uncut final attempt of every variant, is executed against a real QXmppClient over loopback TCP (10 k "
+              "histories quick); after every loss and every establishment the public state, signal counts, stream-management state "
+              "and outstanding requests are checked. State left over from an aborted attempt only shows on the next attempt, hence "
+              "sequences of faults are enumerated rather than single faults."),
+        note="Legacy <session/> and see-other-host scripts are not enumerated; reconnection through connectToServer(configuration()).",
+        design_ref="§3 C10"),
     "C13": dict(
         category="exploration",
         technique="exhaustive enumeration of all operation sequences up to length L over the task/promise API against a reference model",
